@@ -96,11 +96,27 @@ def check(P, R):
             exp = [a for a in args if any(isinstance(y, ast.Call) and dotted(y.func) in ('hmac.new', 'hmac.digest') for y in rd.closure_nodes(a, n))]
             got = [a for a in args if a not in exp]
             if len(exp) != 1 or len(got) != 1:
-                R.ob('C15.b', dec, c, False, detail='cannot tell received from expected signature')
+                R.undecided('C15.b', dec, c, f'{short(c)}: signature comparison', 'cannot tell the received from the expected signature')
                 continue
             exp, got = exp[0], got[0]
             hm = [y for y in rd.closure_nodes(exp, n) if isinstance(y, ast.Call) and dotted(y.func) in ('hmac.new', 'hmac.digest')][0]
             key_arg, msg_arg = (hm.args + [None, None])[:2]
+
+            def _record_field(e_):
+                # <local>.field where the local is an instance of a class of the package: the parts of the cookie are kept in a record
+                # whose field layout is not modelled
+                if isinstance(e_, ast.Attribute) and isinstance(e_.value, ast.Name) and rd.is_local(e_.value.id):
+                    for d_ in rd.at(n, e_.value.id):
+                        if d_.value is not None and isinstance(d_.value, ast.Call):
+                            r_ = P.resolve_name(dec.module, dotted(d_.value.func) or '')
+                            if r_ and r_[0] == 'class':
+                                return True
+                return False
+            if _record_field(got) or _record_field(msg_arg):
+                R.undecided('C15.b', dec, c, f'{short(c)}: received signature / authenticated message',
+                            'the two halves of the cookie are held in a record object of the package; no recogniser follows its fields')
+                check_compare(P, R, dec, c)
+                continue
             # message authenticated: derives from the split of the input, with no decoding step in between
             mcl = rd.closure_nodes(msg_arg, n) if msg_arg is not None else []
             has_split = any(isinstance(y, ast.Call) and call_attr(y) in ('split', 'partition', 'rpartition') for y in mcl)
